@@ -64,6 +64,8 @@ pub enum RK {
     BVar { v: i64 },
     /// node made by memoised function `m` for `key`: `src.map(|x| x + key)`
     Memo { m: usize, key: i64, src: Hid },
+    /// node made by a constructor memoised inside a bind closure: `src.map(|x| x + key)`
+    BMemo { src: Hid, key: i64 },
 }
 
 #[derive(Clone, Debug, PartialEq)]
